@@ -1591,6 +1591,15 @@ def run_process(case) -> CaseResult:
             return finish_case(h, labels, set())
 
         wexit = want_exit(case['end'])
+
+        if conn_ended and not ended and \
+                (obj.exit_status, obj.exit_signal, obj.returncode) == \
+                (None, None, None):
+            # the connection ended while the command was still writing
+            # (blocked on the window): it never said how it ended
+            labels.add('conn-end:command-still-writing')
+            wexit = (None, None, None)
+
         should_raise = (check and bool(wexit[0]) and mode in ('run', 'wait')
                         ) or mode == 'timeout'
 
@@ -1599,12 +1608,6 @@ def run_process(case) -> CaseResult:
                             (check, wexit[0], kind), 'check-flag')
 
         got = (obj.exit_status, obj.exit_signal, obj.returncode)
-
-        if conn_ended and got == (None, None, None) and not ended:
-            # the connection ended while the command was still writing
-            # (blocked on the window): it never said how it ended
-            labels.add('conn-end:command-still-writing')
-            wexit = got
 
         if got != wexit:
             raise Violation('exit-info', '%s reported (status, signal, '
